@@ -21,6 +21,8 @@ CONSTANTS N,             \* number of cells of each input vector
           RefreshStore,  \* TRUE: a re-evaluated in-place write saves the contents it overwrites (repaired tree)
           RollForward,   \* TRUE: the reverse sweep redoes the in-place writes when it is done (repaired tree)
           SetPbViaTemp,  \* TRUE: pullback of item assignment reads ybar[sl] into a temporary first (repaired tree)
+          FreshBars,     \* TRUE: every reverse sweep allocates new adjoint buffers (the code); FALSE: a sweep with the same
+                         \*       degree and direction count clears and reuses the buffers of the previous one
           Prefix,        \* "plain" | "buffered": the fixed beginning of every program
           DrvX, DrvV, DrvW,   \* catalogues of driver arguments (vectors of rationals)
           MaxAbs
@@ -35,8 +37,10 @@ VARIABLES prog,     \* Seq of instructions = all Function nodes in creation orde
           cur,      \* the inputs of the last forward evaluation: [kind, D, pt]  (kind "U" UTPM / "A" ndarray)
           hist,     \* the calls made so far (behaviour, for replay)
           ret,      \* result of the last call
-          bars      \* adjoint state left by the last reverse sweep (observable as node.xbar)
-vars == <<prog, recd, tracing, val, saved, heap, phase, cur, hist, ret, bars>>
+          bars,     \* adjoint state left by the last reverse sweep (observable as node.xbar)
+          xbuf,     \* the adjoint buffers of the independents allocated so far: Seq of [D |-> degree, v |-> contents]
+          handed    \* results handed to the caller that live in such a buffer (x.xbar, driver results): Seq of [g |-> buffer, v |-> value]
+vars == <<prog, recd, tracing, val, saved, heap, phase, cur, hist, ret, bars, xbuf, handed>>
 
 NoneV == [buf |-> 0, cells |-> <<>>, arr |-> FALSE]
 NoRet == [k |-> "none"]
@@ -322,7 +326,7 @@ Init ==
   /\ tracing = TRUE
   /\ cur = [kind |-> "U", D |-> 1, pt |-> RecPt.x]
   /\ LET r == RunList(1, <<>>, <<>>, <<>>, PrefixProg, RecPt.x) IN heap = r.h /\ val = r.v /\ saved = r.s
-  /\ phase = "rec" /\ hist = <<>> /\ ret = NoRet /\ bars = <<>>
+  /\ phase = "rec" /\ hist = <<>> /\ ret = NoRet /\ bars = <<>> /\ xbuf = <<>> /\ handed = <<>>
 
 NumRec == Cardinality({k \in 1..Len(prog) : recd[k]})
 \* Function.create + Function.pushforward(Fout = None): compute the value, append the node iff recording
@@ -336,7 +340,7 @@ Rec(ins) ==
   /\ LET r == TLCEval(Step(heap, val, ins, cur.pt, 1, "U", <<>>, TRUE)) IN
        hist' = Append(hist, [c |-> "rec", ins |-> ins, on |-> tracing,
                              v |-> IF r.o = NoneV THEN <<>> ELSE ValOf(Read(r.h, r.o))])
-  /\ UNCHANGED <<tracing, phase, cur, ret, bars>>
+  /\ UNCHANGED <<tracing, phase, cur, ret, bars, xbuf, handed>>
 \* cg.trace_off() / cg.trace_on() in the middle of a program: only pure operations are executed while off
 Toggle ==
   /\ phase = "rec" /\ "toggle" \in Ops
@@ -344,14 +348,14 @@ Toggle ==
   /\ Len(prog) < MaxInstr + NPre
   /\ tracing' = ~tracing
   /\ hist' = Append(hist, [c |-> IF tracing THEN "trace_off" ELSE "trace_on"])
-  /\ UNCHANGED <<prog, recd, val, saved, heap, phase, cur, ret, bars>>
+  /\ UNCHANGED <<prog, recd, val, saved, heap, phase, cur, ret, bars, xbuf, handed>>
 \* an unrelated, already completed graph is evaluated (value, gradient) while THIS graph is recording: no effect, in particular
 \* this graph keeps recording
 OtherRec ==
   /\ phase = "rec" /\ "otherrec" \in Ops /\ tracing
   /\ Cardinality({k \in 1..Len(hist) : hist[k].c = "other_rec"}) < 1
   /\ hist' = Append(hist, [c |-> "other_rec"])
-  /\ UNCHANGED <<prog, recd, tracing, val, saved, heap, phase, cur, ret, bars>>
+  /\ UNCHANGED <<prog, recd, tracing, val, saved, heap, phase, cur, ret, bars, xbuf, handed>>
 Stop ==
   /\ phase = "rec" /\ Len(prog) > NPre /\ recd[Len(prog)] /\ val[Len(prog)] # NoneV
   /\ prog[Len(prog)].op \notin {"const", "zeros"}
@@ -359,7 +363,7 @@ Stop ==
   /\ \A k \in (NPre + 1)..(Len(prog) - 1) : (recd[k] /\ prog[k].op \notin {"set", "seta"}) => \E m \in (k + 1)..Len(prog) : recd[m] /\ (prog[m].a = k \/ prog[m].b = k)
   /\ phase' = "idle" /\ tracing' = FALSE
   /\ hist' = Append(hist, [c |-> "stop"])
-  /\ UNCHANGED <<prog, recd, val, saved, heap, cur, ret, bars>>
+  /\ UNCHANGED <<prog, recd, val, saved, heap, cur, ret, bars, xbuf, handed>>
 
 \* ------------------------------------------------------------------ calls on the recorded graph
 CanCall == phase = "idle" /\ Cardinality({k \in 1..Len(hist) : hist[k].c \notin {"rec", "stop", "trace_off", "trace_on", "other_rec"}}) < MaxHist
@@ -374,8 +378,15 @@ Fwd(pt, kind) ==
   /\ LET r == TLCEval(FwdFrom(1, heap, <<>>, saved, pt.x, pt.D, kind)) IN
        hist' = Append(hist, [c |-> "fwd", pt |-> pt, kind |-> kind, ret |-> ValOf(Read(r.h, r.v[Dep]))])
   /\ bars' = <<>>
-  /\ UNCHANGED <<prog, recd, tracing, phase>>
+  /\ UNCHANGED <<prog, recd, tracing, phase, xbuf, handed>>
 \* cg.pullback([ybar]) after a UTPM forward evaluation
+\* The adjoint of the independents is left in a buffer the caller keeps a reference to (x.xbar; the drivers return views
+\* of it).  The code allocates new buffers in every sweep (Function.xbar_from_x); FreshBars = FALSE is the variant that
+\* clears and reuses the previous buffers when degree and direction count still fit.
+HandOut(xbar, D) ==
+  LET reuse == ~FreshBars /\ xbuf # <<>> /\ xbuf[Len(xbuf)].D = D IN
+  /\ xbuf' = IF reuse THEN [xbuf EXCEPT ![Len(xbuf)] = [D |-> D, v |-> xbar]] ELSE Append(xbuf, [D |-> D, v |-> xbar])
+  /\ handed' = Append(handed, [g |-> IF reuse THEN Len(xbuf) ELSE Len(xbuf) + 1, v |-> xbar])
 Pb(sd) ==
   /\ CanCall /\ cur.kind = "U"
   /\ LET ncell == Len(val[Dep].cells)
@@ -385,6 +396,7 @@ Pb(sd) ==
         /\ ret' = [k |-> "adj", v |-> r.xbar]
         /\ bars' = r.xbar
         /\ hist' = Append(hist, [c |-> "pb", ybar |-> ybar, ret |-> r.xbar])
+        /\ HandOut(r.xbar, Dc)
   /\ UNCHANGED <<prog, recd, tracing, val, saved, phase, cur>>
 
 \* ------------------------------------------------------------------ derivative drivers (tracer.py:191-612)
@@ -445,13 +457,14 @@ Drv(name, x, v, w) ==
                                          ELSE IF name = "jacobian_utpm" THEN [j \in 1..N |-> r.xbar[j][1]]
                                          ELSE [j \in 1..N |-> r.xbar[j][1][D]]])
         /\ bars' = r.xbar
+        /\ IF name = "jac_vec" THEN UNCHANGED <<xbuf, handed>> ELSE HandOut(r.xbar, D)     \* (jac_vec has no reverse sweep)
   /\ UNCHANGED <<prog, recd, tracing, phase>>
 
 \* recording / evaluating an unrelated graph in between: no effect on this graph
 Other ==
   /\ CanCall /\ "other" \in Ops
   /\ hist' = Append(hist, [c |-> "other"]) /\ ret' = NoRet
-  /\ UNCHANGED <<prog, recd, tracing, val, saved, heap, phase, cur, bars>>
+  /\ UNCHANGED <<prog, recd, tracing, val, saved, heap, phase, cur, bars, xbuf, handed>>
 
 Next == (\E ins \in Instrs : Rec(ins)) \/ Toggle \/ OtherRec \/ Stop
         \/ (\E pt \in Points : \E kind \in {"U", "A"} : Fwd(pt, kind))
@@ -483,6 +496,9 @@ DriverCorrect ==
      CASE h.name \in {"gradient", "vec_jac", "hess_vec", "vec_hess_vec", "jac_vec"} -> h.got = h.ret
        [] h.name \in {"jacobian", "jacobian_utpm"} -> h.got = h.ret[Len(h.ret)]
        [] h.name \in {"hessian", "vec_hess"} -> h.got = h.ret[N]
+\* C06 a result handed to the caller is a value: no later call changes it (the documented row-by-row assembly of a
+\* Jacobian keeps x.xbar of several sweeps)
+ResultsStable == \A i \in 1..Len(handed) : xbuf[handed[i].g].v = handed[i].v
 Small == \A b \in 1..Len(heap) : \A c \in 1..Len(heap[b]) : \A p \in 1..P : \A d \in 1..Len(heap[b][c][p].v) :
             Abs(heap[b][c][p].v[d][1]) <= MaxAbs /\ heap[b][c][p].v[d][2] <= MaxAbs
 =============================================================================
